@@ -4,13 +4,16 @@ package props
 
 import (
 	"bytes"
+	"context"
 	"fmt"
 	"io"
 	"log"
+	"os"
 	"runtime"
 	"strings"
 	"sync"
 	"sync/atomic"
+	"syscall"
 	"testing"
 	"time"
 
@@ -384,6 +387,35 @@ func propC13Wrappers(t *rapid.T) {
 	if (serr != nil) != o.Sync || s3.syncs != 1 {
 		t.Fatalf("Lock.Sync relayed %v (want error: %v), inner syncs %d", serr, o.Sync, s3.syncs)
 	}
+	// Lock (and AddSync) relay the very error VALUE the wrapped syncer returned, whatever it is - including the
+	// errno values that fsync reports for terminals and pipes - and stay usable afterwards
+	c13Errs := []error{nil, io.EOF, io.ErrShortWrite, syscall.EINVAL, syscall.ENOTTY, syscall.EPIPE, syscall.EAGAIN, syscall.EBADF,
+		&os.PathError{Op: "sync", Path: "/dev/stderr", Err: syscall.EINVAL}, &os.PathError{Op: "write", Path: "/dev/full", Err: syscall.ENOSPC}, os.ErrClosed, context.DeadlineExceeded}
+	es := &c13ErrSink{werr: rapid.SampledFrom(c13Errs).Draw(t, "writeErrValue"), serr: rapid.SampledFrom(c13Errs).Draw(t, "syncErrValue")}
+	for _, wrapped := range []zapcore.WriteSyncer{zapcore.Lock(es), zapcore.Lock(zapcore.AddSync(es)), zap.CombineWriteSyncers(es)} {
+		done := make(chan string, 1)
+		go func() {
+			for round := 0; round < 3; round++ {
+				if n, err := wrapped.Write(p); n != len(p) || err != es.werr {
+					done <- fmt.Sprintf("round %d: Write relayed (%d, %v), the wrapped syncer returned (%d, %v)", round, n, err, len(p), es.werr)
+					return
+				}
+				if err := wrapped.Sync(); err != es.serr {
+					done <- fmt.Sprintf("round %d: Sync relayed %v, the wrapped syncer returned %v", round, err, es.serr)
+					return
+				}
+			}
+			done <- ""
+		}()
+		select {
+		case msg := <-done:
+			if msg != "" {
+				t.Fatalf("Lock: %s", msg)
+			}
+		case <-time.After(20 * time.Second):
+			t.Fatalf("VERIF-DEADLOCK a locked WriteSyncer stopped responding after its wrapped syncer returned write error %v / sync error %v", es.werr, es.serr)
+		}
+	}
 	// BufferedWriteSyncer over a sink with scripted results (incl. one that reports a
 	// short count without an error): it must never pass a short count on with a nil error
 	for _, size := range []int{1, len(p), len(p) + 1, 4096} {
@@ -412,6 +444,12 @@ func propC13Wrappers(t *rapid.T) {
 	c13CheckMulti(t, []*c13Sink{s4}, [][]byte{p}, "single")
 	statCase("C13", o.Err || o.N != -1, fmt.Sprintf("wrap|%d%v%v", o.N, o.Err, o.Sync), "AddSync/Lock relays")
 }
+
+// c13ErrSink accepts everything and returns fixed error values.
+type c13ErrSink struct{ werr, serr error }
+
+func (e *c13ErrSink) Write(p []byte) (int, error) { return len(p), e.werr }
+func (e *c13ErrSink) Sync() error                 { return e.serr }
 
 // overlapSink trips when two calls overlap.
 type overlapSink struct {
